@@ -149,6 +149,28 @@ def rule_H3(u, recipes, rep):
             names = [f[1] for f in feeds if f[0] == "Str"]
             ctor = ctor_of(im.self_ty)
             heads.setdefault(tuple(names[:1]) if not im.derived else ("derived", tuple(n for n in names)[:3]), []).append((ctor, im))
+    # A variadic family that shares one head (the tuples of every arity, with the unit) must make each recipe
+    # self-delimiting: after the head only the element recipes follow, so without an arity-dependent literal or a
+    # closing literal the pre-order of a nested tuple does not determine its shape: ((A, B), C) and ((A, B, C),) both
+    # feed "()" "()" A B C.
+    fam = []
+    for r in recipes:
+        if r["kind"] != "type" or is_alias_recipe(r):
+            continue
+        st = r["impl"].self_ty
+        if st[0] == "tuple" and st[1]:
+            for (conds, feeds, p) in r["paths"]:
+                if p.kind == "ret" and feeds:
+                    fam.append((len(st[1]), feeds, r["impl"]))
+    if fam:
+        heads_ = set(f[1][0][1] for f in fam if f[1][0][0] == "Str")
+        delimited = all(any(x[0] != "Rec" for x in feeds[1:]) for (_n, feeds, _im) in fam)
+        rep.count("H3_tuple_arities", len(fam))
+        ok = len(heads_) > 1 or delimited
+        rep.oblige(ok)
+        if not ok:
+            rep.add("H3", "arity:tuple", "the type hashes of the %d tuple arities share the head %s and feed nothing but their element hashes after it: the arity is not encoded, so nested tuples with the same pre-order collide (PhantomData<((A, B), C)> and PhantomData<((A, B, C),)> have one type hash) and a file is accepted as a type with different generic arguments"
+                    % (len(fam), sorted(heads_)), fam[0][2].loc())
     for head, lst in heads.items():
         ctors = set(c for c, _ in lst)
         # unit and tuples deliberately share "()" ; everything else must be unique
